@@ -16,9 +16,10 @@ MODNAME = __name__
 NON_INJECTIVE = set("ĦħĸĿŀŉŦŧŰű")
 ASCII_CHARS = [chr(c) for c in range(32, 127) if chr(c) not in '"^']
 LATIN = [chr(c) for c in range(0xC0, 0x180) if chr(c).isalpha() and chr(c) not in NON_INJECTIVE]
-CHARS = ASCII_CHARS + ["\t", "\n"] + LATIN
+CHARS = ASCII_CHARS + ["\t", "\n", "\xa0"] + LATIN  # blanks: space, tab, newline and the no-break space (TeX's tie)
 LIGATURES = {"--", "``", "''", "!`", "?`"}
 SAFE_URLS = ["http://example.org/a_b", "https://example.org/path/to-page.html", "www.example.com/index", "http://a.b/c?d=e#frag"]
+URL_THEN_NBSP = [u + "\xa0R&D 100% {x} ~" for u in ("http://example.org/a.html", "www.example.com/index")]
 RISKY_URLS = ["https://a.b/c?d=e&f=g", "www.example.com/~user", "http://a.b/c%20d", "http://a.b/{x}", "http://a.b/x$y"]
 MATH = ["$x_1$", "$\\alpha + \\beta$", "$a < b$", "$\\frac{a}{b}$", "$E = mc_2$", "$x$", "$a\\$b$", "$\\{x\\}$"]
 URL_RE = re.compile(r"https?://\S*\.\S*|www.\S*\.\S*")
@@ -256,6 +257,8 @@ def w_atoms(acc):
         if where == "nameparts" and atom in MATH:
             continue
         acc.run("roundtrip", o_roundtrip, {"text": t, "where": where, "opts": opts}, True)
+    for atom, p, q, opts in itertools.product(URL_THEN_NBSP, pre, post, OPTION_SETS):
+        acc.run("roundtrip", o_roundtrip, {"text": p + atom + q, "where": "field", "opts": opts}, True)
     for atom, p, opts in itertools.product(RISKY_URLS + ["$x$ 5% $y$", "$a$ and $b$ \\& c", "$a$ $b$ $c$"], pre, OPTION_SETS):
         acc.run("roundtrip", o_roundtrip, {"text": p + atom + " end", "where": "field", "opts": opts}, True)
 
@@ -295,7 +298,7 @@ def w_random(acc, n, seed):
     libs, text = st_typed_library()
     rt = st.fixed_dictionaries({"text": text, "where": st.sampled_from(["field", "string", "nameparts"]), "opts": st.sampled_from(sorted(OPTION_SETS))})
     harness.run_hyp(acc, "roundtrip", o_roundtrip, rt, n, seed)
-    longer = st.lists(st.one_of(st.sampled_from(CHARS), st.sampled_from(SAFE_URLS + MATH + RISKY_URLS)), max_size=40).map(join_tokens)
+    longer = st.lists(st.one_of(st.sampled_from(CHARS), st.sampled_from(SAFE_URLS + MATH + RISKY_URLS + URL_THEN_NBSP)), max_size=40).map(join_tokens)
     rt2 = st.fixed_dictionaries({"text": longer, "where": st.just("field"), "opts": st.sampled_from(sorted(OPTION_SETS))})
     harness.run_hyp(acc, "roundtrip", o_roundtrip, rt2, n // 2, seed + 1)
     sc = st.fixed_dictionaries({"lib": libs, "seq": st.sampled_from(_scope_specs()), "inplace": st.booleans()})
